@@ -207,6 +207,8 @@ func classify(ref *funcRef) string {
 		return "fieldmiddleware"
 	case strings.HasPrefix(name, "unmarshalInput"):
 		return "unmarshalinput"
+	case strings.HasPrefix(name, "unmarshal") && bodyCalls(fd, "NewPathWithIndex"):
+		return "listunmarshal"
 	case strings.HasPrefix(name, "field_") && strings.HasSuffix(name, "_args"):
 		return "fieldargs"
 	}
